@@ -1,6 +1,8 @@
 import E3fpVerif.Model.Fprint
 import E3fpVerif.Lemmas.Uniq
 import E3fpVerif.Lemmas.Pow2
+import E3fpVerif.Lemmas.FoldLemmas
+import E3fpVerif.Model.Db
 /-!
 # C07 — folding is index reduction and commutes with every route to a folded result
 
@@ -70,5 +72,672 @@ theorem fold_indices_compress (f g : Fp) (b : Nat) (cm : CountsMethod) (h : f.fo
 theorem fold_or (f g : Fp) (b m : Nat) (cm : CountsMethod) (h : f.fold b m cm = .ok g) (j : Nat) :
     j ∈ g.idx ↔ ∃ i ∈ f.idx, foldIdx m f.bits b i = j := by
   rw [(fold_ok f g b m cm h).2.2.2, mem_uniq, List.mem_map]
+
+
+/-! ## the explicit result of a fold -/
+
+/-- everything a successful fold tells us: the acceptance conditions and every field of the result -/
+theorem fold_spec (f g : Fp) (b m : Nat) (cm : CountsMethod) (h : f.fold b m cm = .ok g) :
+    b ≤ f.bits ∧ 0 < b ∧ (∃ n, f.bits = b * 2 ^ n) ∧ (m = 0 ∨ m = 1) ∧
+      g.kind = f.kind ∧ g.bits = b ∧ g.level = f.level ∧
+      g.idx = uniq (f.idx.map (foldIdx m f.bits b)) ∧
+      (f.kind = .bit → g.cnt = []) ∧
+      (f.kind ≠ .bit → g.cnt = (uniq (f.idx.map (foldIdx m f.bits b))).map
+          (fun j => (j, coerce f.kind (combine cm ((preimage f b m j).map f.count))))) := by
+  unfold Fp.fold at h
+  split at h
+  · cases h
+  · split at h
+    · cases h
+    · split at h
+      · cases h
+      · rename_i h1 h2 h3
+        simp only [Bool.not_eq_eq_eq_not, Bool.not_true, Bool.not_eq_false] at h2
+        obtain ⟨hb, hn⟩ := isPow2Multiple_exists h2
+        refine ⟨by omega, hb, hn, by omega, ?_⟩
+        cases h
+        obtain ⟨kind, bits, level, idx, cnt⟩ := f
+        cases kind <;> simp
+
+/-- the converse direction in explicit form: under the acceptance conditions the fold is this value -/
+theorem fold_eq_of (f : Fp) (b m : Nat) (cm : CountsMethod) (hb : 0 < b) (hn : ∃ n, f.bits = b * 2 ^ n)
+    (hm : m = 0 ∨ m = 1) :
+    ∃ g, f.fold b m cm = .ok g := by
+  refine (fold_rejects f b m cm hb).2 ⟨?_, hn, hm⟩
+  obtain ⟨n, hn⟩ := hn
+  rw [hn]
+  exact Nat.le_mul_of_pos_right b (Nat.pow_pos (by decide))
+
+theorem count_of_ne_bit (f : Fp) (hk : f.kind ≠ .bit) (i : Nat) : f.count i = lookupQ f.cnt i := by
+  unfold Fp.count
+  split
+  · rename_i h; exact absurd h hk
+  · rfl
+
+theorem Fp.ext' (x y : Fp) (h1 : x.kind = y.kind) (h2 : x.bits = y.bits) (h3 : x.level = y.level)
+    (h4 : x.idx = y.idx) (h5 : x.cnt = y.cnt) : x = y := by
+  cases x; cases y; simp_all
+
+/-! ## target 1: a fold of a well-formed fingerprint is well formed -/
+
+/-- the class invariant survives folding: indices strictly ascending and below the new length, counts
+keyed by exactly the indices (no counts for a bit fingerprint).  (`0 < b` is not needed as a
+hypothesis: a successful fold implies it.) -/
+theorem fold_wf (f g : Fp) (b m : Nat) (cm : CountsMethod) (hf : f.WF) (h : f.fold b m cm = .ok g) :
+    g.WF := by
+  obtain ⟨_, hb, ⟨n, hn⟩, hm, hk, hbits, _, hidx, hc1, hc2⟩ := fold_spec f g b m cm h
+  obtain ⟨_, hlt, _, _⟩ := hf
+  refine ⟨?_, ?_, ?_, ?_⟩
+  · rw [hidx]; exact strictAsc_uniq _
+  · intro j hj
+    rw [hidx, mem_uniq, List.mem_map] at hj
+    obtain ⟨i, hi, rfl⟩ := hj
+    rw [hbits]
+    exact foldIdx_lt m f.bits b n i hm hb hn (hlt i hi)
+  · intro hk'; exact hc1 (hk ▸ hk')
+  · intro hk'
+    rw [hc2 (hk ▸ hk'), hidx, map_fst_graph]
+
+/-- the bound alone needs only the bound of the original (not the whole invariant) -/
+theorem fold_idx_lt (f g : Fp) (b m : Nat) (cm : CountsMethod) (hlt : ∀ i ∈ f.idx, i < f.bits)
+    (h : f.fold b m cm = .ok g) : ∀ j ∈ g.idx, j < b := by
+  obtain ⟨_, hb, ⟨n, hn⟩, hm, _, _, _, hidx, _, _⟩ := fold_spec f g b m cm h
+  intro j hj
+  rw [hidx, mem_uniq, List.mem_map] at hj
+  obtain ⟨i, hi, rfl⟩ := hj
+  exact foldIdx_lt m f.bits b n i hm hb hn (hlt i hi)
+
+/-! ## target 2: the counts of a fold -/
+
+/-- count / float fingerprints: the folded count at `j` is the combination (sum / max / min) of the
+counts of the original positions folding onto `j`, passed through the class's counts setter;
+positions nothing folds onto have count 0 -/
+theorem fold_count (f g : Fp) (b m : Nat) (cm : CountsMethod) (hk : f.kind ≠ .bit)
+    (h : f.fold b m cm = .ok g) (j : Nat) :
+    g.count j = if j ∈ g.idx then coerce f.kind (combine cm ((preimage f b m j).map f.count)) else 0 := by
+  obtain ⟨_, _, _, _, hk', _, _, hidx, _, hc2⟩ := fold_spec f g b m cm h
+  rw [count_of_ne_bit g (hk' ▸ hk), hc2 hk, hidx, lookupQ_graph]
+
+theorem fold_count_mem (f g : Fp) (b m : Nat) (cm : CountsMethod) (hk : f.kind ≠ .bit)
+    (h : f.fold b m cm = .ok g) (j : Nat) (hj : j ∈ g.idx) :
+    g.count j = coerce f.kind (combine cm ((preimage f b m j).map f.count)) := by
+  rw [fold_count f g b m cm hk h j, if_pos hj]
+
+theorem fold_count_not_mem (f g : Fp) (b m : Nat) (cm : CountsMethod) (hk : f.kind ≠ .bit)
+    (h : f.fold b m cm = .ok g) (j : Nat) (hj : j ∉ g.idx) : g.count j = 0 := by
+  rw [fold_count f g b m cm hk h j, if_neg hj]
+
+/-- bit fingerprints: the folded "count" is the OR of the original bits folding onto `j` -/
+theorem fold_count_bit (f g : Fp) (b m : Nat) (cm : CountsMethod) (hk : f.kind = .bit)
+    (h : f.fold b m cm = .ok g) (j : Nat) :
+    g.count j = if ∃ i ∈ f.idx, foldIdx m f.bits b i = j then 1 else 0 := by
+  have hk' : g.kind = .bit := (fold_ok f g b m cm h).1.trans hk
+  unfold Fp.count
+  rw [hk']
+  simp only [fold_or f g b m cm h j]
+
+/-! ## target 3: summing folds conserve the total -/
+
+/-- the counts setter does nothing to a sum of values it does nothing to -/
+theorem coerce_sumQ (k : Kind) (l : List Rat) (hl : ∀ q ∈ l, coerce k q = q) : coerce k (sumQ l) = sumQ l := by
+  cases k with
+  | count => exact truncQ_sumQ l hl
+  | bit => rfl
+  | float => rfl
+
+theorem mem_preimage (f : Fp) (b m j i : Nat) : i ∈ preimage f b m j ↔ i ∈ f.idx ∧ foldIdx m f.bits b i = j := by
+  simp [preimage]
+
+/-- fibre sums of stable values are stable -/
+theorem coerce_fibre (f : Fp) (b m j : Nat) (hs : ∀ i ∈ f.idx, coerce f.kind (f.count i) = f.count i) :
+    coerce f.kind (sumQ ((preimage f b m j).map f.count)) = sumQ ((preimage f b m j).map f.count) := by
+  apply coerce_sumQ
+  intro q hq
+  obtain ⟨i, hi, rfl⟩ := List.mem_map.1 hq
+  exact hs i ((mem_preimage f b m j i).1 hi).1
+
+/-- general form: a summing fold of a count/float fingerprint whose counts the setter leaves alone
+conserves the total count.  (No well-formedness needed.) -/
+theorem fold_total_gen (f g : Fp) (b m : Nat) (hk : f.kind ≠ .bit)
+    (hs : ∀ i ∈ f.idx, coerce f.kind (f.count i) = f.count i)
+    (h : f.fold b m .sum = .ok g) :
+    sumQ (g.idx.map g.count) = sumQ (f.idx.map f.count) := by
+  have hidx := (fold_ok f g b m .sum h).2.2.2
+  rw [← sumQ_fibres_uniq f.idx (foldIdx m f.bits b) f.count, ← hidx]
+  congr 1
+  apply List.map_congr_left
+  intro j hj
+  rw [fold_count_mem f g b m .sum hk h j hj]
+  exact coerce_fibre f b m j hs
+
+/-- float fingerprints: the total is conserved -/
+theorem fold_total (f g : Fp) (b m : Nat) (hk : f.kind = .float) (h : f.fold b m .sum = .ok g) :
+    sumQ (g.idx.map g.count) = sumQ (f.idx.map f.count) :=
+  fold_total_gen f g b m (by rw [hk]; decide) (by intro i _; rw [hk]; rfl) h
+
+/-- count fingerprints with integer counts: the total is conserved -/
+theorem fold_total_count (f g : Fp) (b m : Nat) (hk : f.kind = .count)
+    (hint : ∀ i ∈ f.idx, truncQ (f.count i) = f.count i) (h : f.fold b m .sum = .ok g) :
+    sumQ (g.idx.map g.count) = sumQ (f.idx.map f.count) :=
+  fold_total_gen f g b m (by rw [hk]; decide) (by intro i hi; rw [hk]; exact hint i hi) h
+
+/-- and the folded counts of such a fingerprint are again integers -/
+theorem fold_count_int (f g : Fp) (b m : Nat) (hk : f.kind = .count)
+    (hint : ∀ i ∈ f.idx, truncQ (f.count i) = f.count i) (h : f.fold b m .sum = .ok g) :
+    ∀ j ∈ g.idx, truncQ (g.count j) = g.count j := by
+  intro j hj
+  have hs : ∀ i ∈ f.idx, coerce f.kind (f.count i) = f.count i := by
+    intro i hi; rw [hk]; exact hint i hi
+  rw [fold_count_mem f g b m .sum (by rw [hk]; decide) h j hj]
+  simp only [combine]
+  rw [coerce_fibre f b m j hs]
+  have := coerce_fibre f b m j hs
+  rw [hk] at this
+  exact this
+
+/-! ## target 4: folding in two steps reaches the same positions as folding in one -/
+
+/-- both methods, any counts methods: `A → a → b` and `A → b` give the same kind, length, level and
+index array -/
+theorem fold_fold_idx (f g₁ g₂ g : Fp) (a b m : Nat) (cm₁ cm₂ cm : CountsMethod)
+    (h₁ : f.fold a m cm₁ = .ok g₁) (h₂ : g₁.fold b m cm₂ = .ok g₂) (h : f.fold b m cm = .ok g) :
+    g₂.kind = g.kind ∧ g₂.bits = g.bits ∧ g₂.level = g.level ∧ g₂.idx = g.idx := by
+  obtain ⟨_, _, ⟨k, hk⟩, hm, k1, b1, l1, i1, _, _⟩ := fold_spec f g₁ a m cm₁ h₁
+  obtain ⟨_, hb, ⟨l, hl⟩, _, k2, b2, l2, i2, _, _⟩ := fold_spec g₁ g₂ b m cm₂ h₂
+  obtain ⟨_, _, _, _, k3, b3, l3, i3, _, _⟩ := fold_spec f g b m cm h
+  refine ⟨by rw [k2, k1, k3], by rw [b2, b3], by rw [l2, l1, l3], ?_⟩
+  rw [i2, i3, i1, b1]
+  apply uniq_ext
+  intro x
+  simp only [List.mem_map, mem_uniq]
+  rw [b1] at hl
+  constructor
+  · rintro ⟨j, ⟨i, hi, rfl⟩, rfl⟩
+    exact ⟨i, hi, (foldIdx_comp m f.bits a b k l i hm hb hk hl).symm⟩
+  · rintro ⟨i, hi, rfl⟩
+    exact ⟨_, ⟨i, hi, rfl⟩, foldIdx_comp m f.bits a b k l i hm hb hk hl⟩
+
+/-- when the first fold exists, the one-step fold exists too (so `fold_fold_idx` needs only two of
+its three hypotheses to be non-vacuous) -/
+theorem fold_fold_exists (f g₁ g₂ : Fp) (a b m : Nat) (cm₁ cm₂ cm : CountsMethod)
+    (h₁ : f.fold a m cm₁ = .ok g₁) (h₂ : g₁.fold b m cm₂ = .ok g₂) : ∃ g, f.fold b m cm = .ok g := by
+  obtain ⟨_, _, ⟨k, hk⟩, hm, _, b1, _, _, _, _⟩ := fold_spec f g₁ a m cm₁ h₁
+  obtain ⟨_, hb, ⟨l, hl⟩, _, _, _, _, _, _, _⟩ := fold_spec g₁ g₂ b m cm₂ h₂
+  apply fold_eq_of f b m cm hb _ hm
+  rw [b1] at hl
+  exact ⟨l + k, by rw [hk, hl, Nat.pow_add, Nat.mul_assoc]⟩
+
+/-- bit fingerprints: the two routes give the same fingerprint -/
+theorem fold_fold_bit (f g₁ g₂ g : Fp) (a b m : Nat) (cm₁ cm₂ cm : CountsMethod) (hk : f.kind = .bit)
+    (h₁ : f.fold a m cm₁ = .ok g₁) (h₂ : g₁.fold b m cm₂ = .ok g₂) (h : f.fold b m cm = .ok g) :
+    g₂ = g := by
+  obtain ⟨e1, e2, e3, e4⟩ := fold_fold_idx f g₁ g₂ g a b m cm₁ cm₂ cm h₁ h₂ h
+  have k1 := (fold_ok f g₁ a m cm₁ h₁).1
+  refine Fp.ext' _ _ e1 e2 e3 e4 ?_
+  rw [(fold_spec g₁ g₂ b m cm₂ h₂).2.2.2.2.2.2.2.2.1 (k1.trans hk),
+    (fold_spec f g b m cm h).2.2.2.2.2.2.2.2.1 hk]
+
+/-! ## target 5: … and, for summing folds, the same counts -/
+
+/-- the fibre sums of the two-step route are the fibre sums of the one-step route -/
+theorem fibre_two_step (f g₁ g₂ : Fp) (a b m : Nat) (cm₂ : CountsMethod) (hk : f.kind ≠ .bit)
+    (hs : ∀ i ∈ f.idx, coerce f.kind (f.count i) = f.count i)
+    (h₁ : f.fold a m .sum = .ok g₁) (h₂ : g₁.fold b m cm₂ = .ok g₂) (x : Nat) :
+    sumQ ((preimage g₁ b m x).map g₁.count) = sumQ ((preimage f b m x).map f.count) := by
+  obtain ⟨_, _, ⟨k, hk'⟩, hm, _, b1, _, i1, _, _⟩ := fold_spec f g₁ a m .sum h₁
+  obtain ⟨_, hb, ⟨l, hl⟩, _, _, _, _, _, _, _⟩ := fold_spec g₁ g₂ b m cm₂ h₂
+  rw [b1] at hl
+  have hL : (preimage g₁ b m x).map g₁.count
+      = ((uniq (f.idx.map (foldIdx m f.bits a))).filter (fun j => decide (foldIdx m a b j = x))).map
+          (fun j => sumQ ((f.idx.filter (fun i => decide (foldIdx m f.bits a i = j))).map f.count)) := by
+    unfold preimage
+    rw [b1, i1]
+    apply List.map_congr_left
+    intro j hj
+    have hj' : j ∈ g₁.idx := by rw [i1]; exact (List.mem_filter.1 hj).1
+    rw [fold_count_mem f g₁ a m .sum hk h₁ j hj']
+    exact coerce_fibre f a m j hs
+  rw [hL, sumQ_fibres_comp]
+  unfold preimage
+  congr 2
+  apply List.filter_congr
+  intro i _
+  rw [foldIdx_comp m f.bits a b k l i hm hb hk' hl]
+
+/-- count/float fingerprints with setter-stable counts, summing folds: the two routes give the same
+count at every position -/
+theorem fold_fold_counts_gen (f g₁ g₂ g : Fp) (a b m : Nat) (hk : f.kind ≠ .bit)
+    (hs : ∀ i ∈ f.idx, coerce f.kind (f.count i) = f.count i)
+    (h₁ : f.fold a m .sum = .ok g₁) (h₂ : g₁.fold b m .sum = .ok g₂) (h : f.fold b m .sum = .ok g)
+    (x : Nat) : g₂.count x = g.count x := by
+  have k1 := (fold_ok f g₁ a m .sum h₁).1
+  have e4 := (fold_fold_idx f g₁ g₂ g a b m .sum .sum .sum h₁ h₂ h).2.2.2
+  rw [fold_count g₁ g₂ b m .sum (by rw [k1]; exact hk) h₂ x, fold_count f g b m .sum hk h x, e4, k1]
+  simp only [combine]
+  rw [fibre_two_step f g₁ g₂ a b m .sum hk hs h₁ h₂ x]
+
+/-- … hence the same fingerprint -/
+theorem fold_fold_eq_gen (f g₁ g₂ g : Fp) (a b m : Nat) (hk : f.kind ≠ .bit)
+    (hs : ∀ i ∈ f.idx, coerce f.kind (f.count i) = f.count i)
+    (h₁ : f.fold a m .sum = .ok g₁) (h₂ : g₁.fold b m .sum = .ok g₂) (h : f.fold b m .sum = .ok g) :
+    g₂ = g := by
+  obtain ⟨e1, e2, e3, e4⟩ := fold_fold_idx f g₁ g₂ g a b m .sum .sum .sum h₁ h₂ h
+  have k1 := (fold_ok f g₁ a m .sum h₁).1
+  have i2 := (fold_ok g₁ g₂ b m .sum h₂).2.2.2
+  have i3 := (fold_ok f g b m .sum h).2.2.2
+  refine Fp.ext' _ _ e1 e2 e3 e4 ?_
+  rw [(fold_spec g₁ g₂ b m .sum h₂).2.2.2.2.2.2.2.2.2 (by rw [k1]; exact hk),
+    (fold_spec f g b m .sum h).2.2.2.2.2.2.2.2.2 hk, ← i2, ← i3, e4, k1]
+  apply List.map_congr_left
+  intro j _
+  simp only [combine]
+  rw [fibre_two_step f g₁ g₂ a b m .sum hk hs h₁ h₂ j]
+
+/-- float fingerprints -/
+theorem fold_fold_counts (f g₁ g₂ g : Fp) (a b m : Nat) (hk : f.kind = .float)
+    (h₁ : f.fold a m .sum = .ok g₁) (h₂ : g₁.fold b m .sum = .ok g₂) (h : f.fold b m .sum = .ok g)
+    (x : Nat) : g₂.count x = g.count x :=
+  fold_fold_counts_gen f g₁ g₂ g a b m (by rw [hk]; decide) (by intro i _; rw [hk]; rfl) h₁ h₂ h x
+
+theorem fold_fold_eq (f g₁ g₂ g : Fp) (a b m : Nat) (hk : f.kind = .float)
+    (h₁ : f.fold a m .sum = .ok g₁) (h₂ : g₁.fold b m .sum = .ok g₂) (h : f.fold b m .sum = .ok g) :
+    g₂ = g :=
+  fold_fold_eq_gen f g₁ g₂ g a b m (by rw [hk]; decide) (by intro i _; rw [hk]; rfl) h₁ h₂ h
+
+/-- count fingerprints with integer counts -/
+theorem fold_fold_eq_count (f g₁ g₂ g : Fp) (a b m : Nat) (hk : f.kind = .count)
+    (hint : ∀ i ∈ f.idx, truncQ (f.count i) = f.count i)
+    (h₁ : f.fold a m .sum = .ok g₁) (h₂ : g₁.fold b m .sum = .ok g₂) (h : f.fold b m .sum = .ok g) :
+    g₂ = g :=
+  fold_fold_eq_gen f g₁ g₂ g a b m (by rw [hk]; decide) (by intro i hi; rw [hk]; exact hint i hi) h₁ h₂ h
+
+/-! ## target 6: the index maps -/
+
+/-- the keys of the unfolding map are the folded indices, in order -/
+theorem fold_maps_keys (f g : Fp) (b m : Nat) (cm : CountsMethod) (h : f.fold b m cm = .ok g) :
+    (f.unfoldMap b m).map Prod.fst = g.idx := by
+  rw [(fold_ok f g b m cm h).2.2.2]
+  simp [Fp.unfoldMap, Function.comp_def]
+
+/-- the entries are exactly `(j, preimage j)` for the folded indices `j` -/
+theorem fold_maps_entry (f g : Fp) (b m : Nat) (cm : CountsMethod) (h : f.fold b m cm = .ok g)
+    (p : Nat × List Nat) :
+    p ∈ f.unfoldMap b m ↔ p.1 ∈ g.idx ∧ p.2 = preimage f b m p.1 := by
+  rw [(fold_ok f g b m cm h).2.2.2]
+  unfold Fp.unfoldMap
+  rw [List.mem_map]
+  constructor
+  · rintro ⟨j, hj, rfl⟩; exact ⟨hj, rfl⟩
+  · rintro ⟨h1, h2⟩; exact ⟨p.1, h1, by rw [← h2]⟩
+
+/-- an entry lists exactly the original indices that fold onto its key -/
+theorem fold_maps_mem (f : Fp) (b m j : Nat) (l : List Nat) (hp : (j, l) ∈ f.unfoldMap b m) (i : Nat) :
+    i ∈ l ↔ i ∈ f.idx ∧ foldIdx m f.bits b i = j := by
+  unfold Fp.unfoldMap at hp
+  obtain ⟨j', _, e⟩ := List.mem_map.1 hp
+  have e1 : j' = j := congrArg Prod.fst e
+  have e2 : preimage f b m j' = l := congrArg Prod.snd e
+  rw [← e2, e1]
+  exact mem_preimage f b m j i
+
+/-- every original index is listed under its image … -/
+theorem fold_maps_cover (f : Fp) (b m i : Nat) (hi : i ∈ f.idx) :
+    (foldIdx m f.bits b i, preimage f b m (foldIdx m f.bits b i)) ∈ f.unfoldMap b m ∧
+      i ∈ preimage f b m (foldIdx m f.bits b i) := by
+  constructor
+  · unfold Fp.unfoldMap
+    exact List.mem_map.2 ⟨_, (mem_uniq _ _).2 (List.mem_map.2 ⟨i, hi, rfl⟩), rfl⟩
+  · exact (mem_preimage f b m _ i).2 ⟨hi, rfl⟩
+
+/-- … and under no other key -/
+theorem fold_maps_unique (f : Fp) (b m j i : Nat) (l : List Nat) (hp : (j, l) ∈ f.unfoldMap b m)
+    (hi : i ∈ l) : j = foldIdx m f.bits b i :=
+  ((fold_maps_mem f b m j l hp i).1 hi).2.symm
+
+/-- no entry is empty -/
+theorem fold_maps_nonempty (f : Fp) (b m j : Nat) (l : List Nat) (hp : (j, l) ∈ f.unfoldMap b m) :
+    l ≠ [] := by
+  unfold Fp.unfoldMap at hp
+  obtain ⟨j', hj', e⟩ := List.mem_map.1 hp
+  have e2 : preimage f b m j' = l := congrArg Prod.snd e
+  obtain ⟨i, hi, e⟩ := List.mem_map.1 ((mem_uniq _ _).1 hj')
+  intro hnil
+  have := (mem_preimage f b m j' i).2 ⟨hi, e⟩
+  rw [e2, hnil] at this
+  simp at this
+
+/-- the folding map pairs every original index with its image -/
+theorem fold_maps_foldMap (f : Fp) (b m : Nat) :
+    f.foldMap b m = f.idx.map (fun i => (i, foldIdx m f.bits b i)) := rfl
+
+/-- the two maps are inverse views of one relation -/
+theorem fold_maps_inverse (f : Fp) (b m i j : Nat) :
+    (i, j) ∈ f.foldMap b m ↔ ∃ l, (j, l) ∈ f.unfoldMap b m ∧ i ∈ l := by
+  unfold Fp.foldMap
+  rw [List.mem_map]
+  constructor
+  · rintro ⟨i', hi', e⟩
+    cases e
+    exact ⟨_, fold_maps_cover f b m i hi'⟩
+  · rintro ⟨l, hp, hi⟩
+    obtain ⟨h1, h2⟩ := (fold_maps_mem f b m j l hp i).1 hi
+    exact ⟨i, h1, by rw [h2]⟩
+
+/-! ## target 7: the database folds a row the way a fingerprint folds (method 0) -/
+
+/-- the row the database computes for a stored row `r` when folding to `bits` columns -/
+def dbFoldRow (r : Row) (bits : Nat) : Row :=
+  sumDuplicates (r.map (fun p => (Gen.dbFoldIndex p.1 bits, p.2)))
+
+/-- its columns are the distinct remainders, ascending -/
+theorem db_fold_row_cols (r : Row) (bits : Nat) :
+    (dbFoldRow r bits).map Prod.fst = uniq ((r.map Prod.fst).map (· % bits)) := by
+  unfold dbFoldRow sumDuplicates
+  rw [map_fst_graph, List.map_map, List.map_map]
+  rfl
+
+/-- its value at `j` is the sum of the stored values whose column folds onto `j` (0 if none does) -/
+theorem db_fold_row_val (r : Row) (bits j : Nat) :
+    lookupQ (dbFoldRow r bits) j
+      = if j ∈ uniq ((r.map Prod.fst).map (· % bits))
+        then sumQ ((r.filter (fun p => decide (p.1 % bits = j))).map Prod.snd) else 0 := by
+  unfold dbFoldRow sumDuplicates
+  rw [lookupQ_graph, List.map_map, List.map_map, List.filter_map, List.map_map]
+  rfl
+
+/-- the row total is conserved -/
+theorem db_fold_row_total (r : Row) (bits : Nat) :
+    sumQ ((dbFoldRow r bits).map Prod.snd) = sumQ (r.map Prod.snd) := by
+  unfold dbFoldRow sumDuplicates
+  rw [List.map_map]
+  have e : (r.map (fun p => (Gen.dbFoldIndex p.1 bits, p.2))).map Prod.snd = r.map Prod.snd := by
+    rw [List.map_map]; rfl
+  rw [← e]
+  exact sumQ_fibres (r.map (fun p => (Gen.dbFoldIndex p.1 bits, p.2))) Prod.fst Prod.snd
+    (uniq ((r.map (fun p => (Gen.dbFoldIndex p.1 bits, p.2))).map Prod.fst)) (strictAsc_uniq _).nodup
+    (fun i hi => (mem_uniq _ _).2 (List.mem_map.2 ⟨i, hi, rfl⟩))
+
+/-- **agreement with `Fp.fold`**: on the row of a float fingerprint, the database's folded row is
+the counts dictionary of the fingerprint folded by partitioning with summed counts -/
+theorem db_fold_row_eq_fold (f g : Fp) (b : Nat) (hk : f.kind = .float) (h : f.fold b 0 .sum = .ok g) :
+    dbFoldRow (fpRow .float f) b = g.cnt := by
+  rw [(fold_spec f g b 0 .sum h).2.2.2.2.2.2.2.2.2 (by rw [hk]; decide)]
+  unfold dbFoldRow sumDuplicates fpRow
+  simp only [List.map_map, List.filter_map, hk]
+  rfl
+
+
+theorem castVal_eq_coerce (k : Kind) (hk : k ≠ .bit) (v : Rat) : castVal k v = coerce k v := by
+  cases k with
+  | bit => exact absurd rfl hk
+  | count => rfl
+  | float => rfl
+
+/-- the same for any count/float fingerprint with setter-stable counts (integer counts, for the count
+kind): the database row, cast back to the database's dtype, is the folded fingerprint's dictionary -/
+theorem db_fold_row_eq_fold_gen (f g : Fp) (b : Nat) (hk : f.kind ≠ .bit)
+    (hs : ∀ i ∈ f.idx, coerce f.kind (f.count i) = f.count i) (h : f.fold b 0 .sum = .ok g) :
+    (dbFoldRow (fpRow f.kind f) b).map (fun p => (p.1, castVal f.kind p.2)) = g.cnt := by
+  have e : fpRow f.kind f = f.idx.map (fun i => (i, f.count i)) := by
+    unfold fpRow
+    apply List.map_congr_left
+    intro i hi
+    rw [castVal_eq_coerce _ hk, hs i hi]
+  rw [(fold_spec f g b 0 .sum h).2.2.2.2.2.2.2.2.2 hk, e]
+  unfold dbFoldRow sumDuplicates
+  simp only [List.map_map, List.filter_map, Function.comp_def, castVal_eq_coerce _ hk]
+  rfl
+
+/-- the stored row of a folded float fingerprint is its counts dictionary -/
+theorem fpRow_fold (f g : Fp) (b m : Nat) (cm : CountsMethod) (hk : f.kind = .float)
+    (h : f.fold b m cm = .ok g) : fpRow .float g = g.cnt := by
+  have hk' : f.kind ≠ .bit := by rw [hk]; decide
+  obtain ⟨_, _, _, _, _, _, _, hidx, _, hc2⟩ := fold_spec f g b m cm h
+  unfold fpRow
+  rw [hc2 hk', ← hidx]
+  apply List.map_congr_left
+  intro j hj
+  rw [fold_count_mem f g b m cm hk' h j hj]
+  rfl
+
+/-- **store-then-fold = fold-then-store** for one float fingerprint -/
+theorem db_fold_row_commutes (f g : Fp) (b : Nat) (hk : f.kind = .float) (h : f.fold b 0 .sum = .ok g) :
+    dbFoldRow (fpRow .float f) b = fpRow .float g := by
+  rw [db_fold_row_eq_fold f g b hk h, fpRow_fold f g b 0 .sum hk h]
+
+/-- `from_array`'s property loop leaves the matrix, length, kind and level alone -/
+theorem fromArray_go_fields (ps : List (String × List PVal)) : ∀ (acc : Db),
+    (Db.fromArray.go acc ps).1.array = acc.array ∧ (Db.fromArray.go acc ps).1.bits = acc.bits ∧
+    (Db.fromArray.go acc ps).1.fpType = acc.fpType ∧ (Db.fromArray.go acc ps).1.level = acc.level := by
+  induction ps with
+  | nil => intro acc; simp [Db.fromArray.go]
+  | cons p ps ih =>
+    intro acc
+    obtain ⟨k, v⟩ := p
+    unfold Db.fromArray.go
+    split
+    · simp
+    · have := ih { acc with props := colSet acc.props k v }
+      simpa using this
+
+/-- what a successful `Db.fold` produces: every stored row is folded by `dbFoldRow` (remainders of the
+columns, equal columns summed), cast to the source dtype, then to the target dtype -/
+theorem db_fold_rows (db d : Db) (a : List Row) (bits : Nat) (k : Option Kind) (nm : Option String)
+    (ha : db.array = some a) (h : db.fold bits k nm = .ok d) :
+    0 < bits ∧ (∃ n, db.bits = bits * 2 ^ n) ∧ d.bits = bits ∧ d.fpType = k.getD db.fpType ∧
+    d.level = db.level ∧
+    d.array = some (a.map (fun r => ((dbFoldRow r bits).map (fun p => (p.1, castVal db.fpType p.2))).map
+      (fun p => (p.1, castVal (k.getD db.fpType) p.2)))) := by
+  unfold Db.fold at h
+  rw [ha] at h
+  simp only at h
+  split at h
+  · cases h
+  · split at h
+    · cases h
+    · rename_i h1 h2
+      simp only [Bool.not_eq_eq_eq_not, Bool.not_true, Bool.not_eq_false] at h2
+      obtain ⟨hb, hn⟩ := isPow2Multiple_exists h2
+      split at h
+      · rename_i d' heq
+        cases h
+        unfold Db.fromArray at heq
+        have hd := congrArg Prod.fst heq
+        simp only at hd
+        refine ⟨hb, hn, ?_, ?_, ?_, ?_⟩ <;> rw [← hd]
+        · exact (fromArray_go_fields _ _).2.1
+        · exact (fromArray_go_fields _ _).2.2.1
+        · exact (fromArray_go_fields _ _).2.2.2
+        · refine (fromArray_go_fields _ _).1.trans ?_
+          simp only [List.map_map, Function.comp_def, dbFoldRow]
+      · cases h
+
+/-- **a float database folds to the database of the folded fingerprints**: if the rows are the stored
+rows of float fingerprints `fs` and `G f` is the partition/sum fold of each `f`, the folded
+database's rows are the stored rows of the `G f` -/
+theorem db_fold_commutes (db d : Db) (fs : List Fp) (G : Fp → Fp) (b : Nat) (nm : Option String)
+    (hT : db.fpType = .float) (ha : db.array = some (fs.map (fpRow .float)))
+    (hk : ∀ f ∈ fs, f.kind = .float) (hG : ∀ f ∈ fs, f.fold b 0 .sum = .ok (G f))
+    (h : db.fold b none nm = .ok d) :
+    d.bits = b ∧ d.fpType = .float ∧ d.array = some (fs.map (fun f => fpRow .float (G f))) := by
+  obtain ⟨_, _, e1, e2, _, e3⟩ := db_fold_rows db d _ b none nm ha h
+  refine ⟨e1, by rw [e2, hT]; rfl, ?_⟩
+  rw [e3, hT, List.map_map]
+  congr 1
+  apply List.map_congr_left
+  intro f hf
+  simp only [Function.comp_def, Option.getD_none, List.map_map]
+  rw [db_fold_row_commutes f (G f) b (hk f hf) (hG f hf)]
+  simp [castVal]
+
+/-- acceptance of a database fold (database without property columns) -/
+theorem db_fold_exists (db : Db) (a : List Row) (bits : Nat) (k : Option Kind) (nm : Option String)
+    (ha : db.array = some a) (hp : db.props = []) (hb : 0 < bits) (hn : ∃ n, db.bits = bits * 2 ^ n) :
+    ∃ d, db.fold bits k nm = .ok d := by
+  have hle : ¬ bits > db.bits := by
+    obtain ⟨n, hn⟩ := hn
+    have : bits ≤ bits * 2 ^ n := Nat.le_mul_of_pos_right bits (Nat.pow_pos (by decide))
+    omega
+  unfold Db.fold
+  rw [ha]
+  simp only
+  rw [if_neg hle, (isPow2Multiple_iff _ _ hb).2 hn, hp]
+  simp [Db.fromArray, Db.fromArray.go]
+
+/-! ## folding to the same length -/
+
+/-- folding a well-formed fingerprint to its own length keeps the index array (both methods) -/
+theorem fold_self_idx (f g : Fp) (m : Nat) (cm : CountsMethod) (hf : f.WF)
+    (h : f.fold f.bits m cm = .ok g) : g.idx = f.idx := by
+  obtain ⟨_, hb, _, hm, _, _, _, hidx, _, _⟩ := fold_spec f g f.bits m cm h
+  have : f.idx.map (foldIdx m f.bits f.bits) = f.idx := by
+    have : f.idx.map (foldIdx m f.bits f.bits) = f.idx.map id := by
+      apply List.map_congr_left
+      intro i hi
+      rcases hm with rfl | rfl
+      · rw [foldIdx_zero]; exact Nat.mod_eq_of_lt (hf.2.1 i hi)
+      · rw [foldIdx_one, Nat.div_self hb]; simp
+    rw [this, List.map_id]
+  rw [hidx, this]
+  exact uniq_of_strictAsc _ hf.1
+
+/-! ## non-vacuity: concrete fingerprints satisfying the hypotheses above -/
+
+section Examples
+
+/-- bit, float and count fingerprints of length 8 on the positions 1, 3, 5, 6 -/
+def exBit : Fp := ⟨.bit, 8, 5, [1, 3, 5, 6], []⟩
+def exFloat : Fp := ⟨.float, 8, 5, [1, 3, 5, 6], [(1, 2), (3, 1), (5, 4), (6, 3)]⟩
+def exCount : Fp := ⟨.count, 8, 5, [1, 3, 5, 6], [(1, 2), (3, 1), (5, 4), (6, 3)]⟩
+
+theorem exBit_wf : exBit.WF := ⟨by decide, by decide, fun _ => rfl, fun h => (h rfl).elim⟩
+theorem exFloat_wf : exFloat.WF := ⟨by decide, by decide, by decide, fun _ => by decide⟩
+theorem exCount_wf : exCount.WF := ⟨by decide, by decide, by decide, fun _ => by decide⟩
+
+theorem exCount_int : ∀ i ∈ exCount.idx, truncQ (exCount.count i) = exCount.count i := by
+  intro i hi
+  apply (truncQ_fixed_iff _).2
+  simp only [exCount, List.mem_cons, List.not_mem_nil, or_false] at hi
+  rcases hi with rfl | rfl | rfl | rfl
+  · exact ⟨2, by simp [Fp.count, exCount, lookupQ]⟩
+  · exact ⟨1, by simp [Fp.count, exCount, lookupQ]⟩
+  · exact ⟨4, by simp [Fp.count, exCount, lookupQ]⟩
+  · exact ⟨3, by simp [Fp.count, exCount, lookupQ]⟩
+
+/-- every fingerprint of length 8 folds to 4 and to 2 by either method, and the 4-fold folds on to 2 -/
+theorem ex_folds (f : Fp) (hf : f.bits = 8) (m : Nat) (hm : m = 0 ∨ m = 1) (cm : CountsMethod) :
+    ∃ g₁ g₂ g, f.fold 4 m cm = .ok g₁ ∧ g₁.fold 2 m cm = .ok g₂ ∧ f.fold 2 m cm = .ok g := by
+  obtain ⟨g₁, h₁⟩ := fold_eq_of f 4 m cm (by decide) ⟨1, by rw [hf]⟩ hm
+  obtain ⟨g₂, h₂⟩ := fold_eq_of g₁ 2 m cm (by decide) ⟨1, by rw [(fold_ok _ _ _ _ _ h₁).2.1]⟩ hm
+  obtain ⟨g, h⟩ := fold_eq_of f 2 m cm (by decide) ⟨2, by rw [hf]⟩ hm
+  exact ⟨g₁, g₂, g, h₁, h₂, h⟩
+
+/-- `fold_wf`, `fold_idx_lt`, `fold_count_bit`, `fold_maps_*`: a bit fingerprint, compression -/
+example : ∃ g, exBit.fold 4 1 .sum = .ok g ∧ g.WF ∧ g.idx = [0, 1, 2, 3] ∧
+    (exBit.unfoldMap 4 1).map Prod.fst = g.idx := by
+  obtain ⟨g, _, _, hg, _, _⟩ := ex_folds exBit rfl 1 (.inr rfl) .sum
+  exact ⟨g, hg, fold_wf exBit g 4 1 .sum exBit_wf hg, by rw [(fold_ok _ _ _ _ _ hg).2.2.2]; decide,
+    fold_maps_keys exBit g 4 1 .sum hg⟩
+
+/-- … and partitioning: positions 1 and 5 collide -/
+example : ∃ g, exBit.fold 4 0 .sum = .ok g ∧ g.WF ∧ g.idx = [1, 2, 3] ∧
+    exBit.unfoldMap 4 0 = [(1, [1, 5]), (2, [6]), (3, [3])] ∧
+    exBit.foldMap 4 0 = [(1, 1), (3, 3), (5, 1), (6, 2)] := by
+  obtain ⟨g, _, _, hg, _, _⟩ := ex_folds exBit rfl 0 (.inl rfl) .sum
+  exact ⟨g, hg, fold_wf exBit g 4 0 .sum exBit_wf hg, by rw [(fold_ok _ _ _ _ _ hg).2.2.2]; decide,
+    by decide, by decide⟩
+
+/-- `fold_wf`, `fold_count`, `fold_total`: a float fingerprint -/
+example : ∃ g, exFloat.fold 4 0 .sum = .ok g ∧ g.WF ∧
+    (∀ j ∈ g.idx, g.count j = sumQ ((preimage exFloat 4 0 j).map exFloat.count)) ∧
+    (∀ j, j ∉ g.idx → g.count j = 0) ∧
+    sumQ (g.idx.map g.count) = sumQ (exFloat.idx.map exFloat.count) := by
+  obtain ⟨g, _, _, hg, _, _⟩ := ex_folds exFloat rfl 0 (.inl rfl) .sum
+  exact ⟨g, hg, fold_wf exFloat g 4 0 .sum exFloat_wf hg,
+    fun j hj => fold_count_mem exFloat g 4 0 .sum (by decide) hg j hj,
+    fun j hj => fold_count_not_mem exFloat g 4 0 .sum (by decide) hg j hj,
+    fold_total exFloat g 4 0 rfl hg⟩
+
+/-- `fold_total_count`, `fold_count_int`: a count fingerprint with integer counts -/
+example : ∃ g, exCount.fold 4 1 .sum = .ok g ∧ g.WF ∧
+    sumQ (g.idx.map g.count) = sumQ (exCount.idx.map exCount.count) ∧
+    (∀ j ∈ g.idx, truncQ (g.count j) = g.count j) := by
+  obtain ⟨g, _, _, hg, _, _⟩ := ex_folds exCount rfl 1 (.inr rfl) .sum
+  exact ⟨g, hg, fold_wf exCount g 4 1 .sum exCount_wf hg,
+    fold_total_count exCount g 4 1 rfl exCount_int hg, fold_count_int exCount g 4 1 rfl exCount_int hg⟩
+
+/-- `fold_fold_idx`, `fold_fold_bit`: 8 → 4 → 2 against 8 → 2, both methods -/
+example (m : Nat) (hm : m = 0 ∨ m = 1) :
+    ∃ g₁ g₂ g, exBit.fold 4 m .sum = .ok g₁ ∧ g₁.fold 2 m .sum = .ok g₂ ∧ exBit.fold 2 m .sum = .ok g ∧
+      g₂.idx = g.idx ∧ g₂ = g := by
+  obtain ⟨g₁, g₂, g, h₁, h₂, h⟩ := ex_folds exBit rfl m hm .sum
+  exact ⟨g₁, g₂, g, h₁, h₂, h, (fold_fold_idx exBit g₁ g₂ g 4 2 m .sum .sum .sum h₁ h₂ h).2.2.2,
+    fold_fold_bit exBit g₁ g₂ g 4 2 m .sum .sum .sum rfl h₁ h₂ h⟩
+
+/-- `fold_fold_counts`, `fold_fold_eq`: float -/
+example (m : Nat) (hm : m = 0 ∨ m = 1) :
+    ∃ g₁ g₂ g, exFloat.fold 4 m .sum = .ok g₁ ∧ g₁.fold 2 m .sum = .ok g₂ ∧ exFloat.fold 2 m .sum = .ok g ∧
+      (∀ x, g₂.count x = g.count x) ∧ g₂ = g := by
+  obtain ⟨g₁, g₂, g, h₁, h₂, h⟩ := ex_folds exFloat rfl m hm .sum
+  exact ⟨g₁, g₂, g, h₁, h₂, h, fold_fold_counts exFloat g₁ g₂ g 4 2 m rfl h₁ h₂ h,
+    fold_fold_eq exFloat g₁ g₂ g 4 2 m rfl h₁ h₂ h⟩
+
+/-- `fold_fold_eq_count`: count with integer counts -/
+example (m : Nat) (hm : m = 0 ∨ m = 1) :
+    ∃ g₁ g₂ g, exCount.fold 4 m .sum = .ok g₁ ∧ g₁.fold 2 m .sum = .ok g₂ ∧ exCount.fold 2 m .sum = .ok g ∧
+      g₂ = g := by
+  obtain ⟨g₁, g₂, g, h₁, h₂, h⟩ := ex_folds exCount rfl m hm .sum
+  exact ⟨g₁, g₂, g, h₁, h₂, h, fold_fold_eq_count exCount g₁ g₂ g 4 2 m rfl exCount_int h₁ h₂ h⟩
+
+/-- `db_fold_row_eq_fold`, `db_fold_row_commutes`, `db_fold_commutes`: a one-row float database -/
+def exDb : Db :=
+  { fpType := .float, level := 5, name := none, array := some [fpRow .float exFloat], bits := 8,
+    fpNames := [none], namesMap := [(none, [0])], props := [] }
+
+example : ∃ g d, exFloat.fold 4 0 .sum = .ok g ∧ exDb.fold 4 none none = .ok d ∧
+    d.bits = 4 ∧ d.array = some [fpRow .float g] ∧ (dbFoldRow (fpRow .float exFloat) 4).map Prod.fst = [1, 2, 3] := by
+  obtain ⟨g, _, _, hg, _, _⟩ := ex_folds exFloat rfl 0 (.inl rfl) .sum
+  obtain ⟨d, hd⟩ := db_fold_exists exDb [fpRow .float exFloat] 4 none none rfl rfl (by decide) ⟨1, by decide⟩
+  have := db_fold_commutes exDb d [exFloat] (fun _ => g) 4 none rfl rfl
+    (by intro f hf; rw [List.mem_singleton.1 hf]; rfl) (by intro f hf; rw [List.mem_singleton.1 hf]; exact hg) hd
+  refine ⟨g, d, hg, hd, this.1, this.2.2, ?_⟩
+  rw [db_fold_row_cols]
+  decide
+
+/-! ### the hypotheses are needed -/
+
+/-- `fold_wf` needs the bound of the original: compression of a stray position leaves the range -/
+example : ∃ f g : Fp, f.fold 4 1 .sum = .ok g ∧ ¬ g.WF := by
+  obtain ⟨g, hg⟩ := fold_eq_of ⟨.bit, 8, 0, [9], []⟩ 4 1 .sum (by decide) ⟨1, by decide⟩ (.inr rfl)
+  refine ⟨_, g, hg, ?_⟩
+  intro hwf
+  have hidx : g.idx = [4] := by rw [(fold_ok _ _ _ _ _ hg).2.2.2]; decide
+  have := hwf.2.1 4 (by rw [hidx]; simp)
+  rw [(fold_ok _ _ _ _ _ hg).2.1] at this
+  omega
+
+/-- `fold_total_count` needs integer counts: the counts setter truncates the fibre sum.  (A count
+fingerprint made by the constructors always has integer counts; this one is well formed in the
+sense of `Fp.WF` only.) -/
+def exHalf : Fp := ⟨.count, 2, 0, [1], [(1, 1/2)]⟩
+theorem exHalf_wf : exHalf.WF := ⟨by decide, by decide, by decide, fun _ => by decide⟩
+
+example : ∃ g, exHalf.fold 2 0 .sum = .ok g ∧
+    sumQ (g.idx.map g.count) ≠ sumQ (exHalf.idx.map exHalf.count) := by
+  obtain ⟨g, hg⟩ := fold_eq_of exHalf 2 0 .sum (by decide) ⟨0, by decide⟩ (.inl rfl)
+  refine ⟨g, hg, ?_⟩
+  have hidx : g.idx = [1] := by rw [(fold_ok _ _ _ _ _ hg).2.2.2]; decide
+  have hc := fold_count_mem exHalf g 2 0 .sum (by decide) hg 1 (by rw [hidx]; simp)
+  rw [hidx]
+  simp only [List.map_cons, List.map_nil, sumQ]
+  rw [hc]
+  decide +kernel
+
+/-- `fold_self_idx` on the running example -/
+example : ∃ g, exBit.fold 8 0 .sum = .ok g ∧ g.idx = exBit.idx := by
+  obtain ⟨g, hg⟩ := fold_eq_of exBit 8 0 .sum (by decide) ⟨0, by decide⟩ (.inl rfl)
+  exact ⟨g, hg, fold_self_idx exBit g 0 .sum exBit_wf hg⟩
+
+end Examples
 
 end E3fpVerif.Props.C07
